@@ -148,6 +148,7 @@ type Op struct {
 	D        int        `json:"d,omitempty"`
 	N        int        `json:"n,omitempty"`
 	Stop     int        `json:"stop,omitempty"` // stored: stop after k values; 0 = never
+	Tail     int        `json:"tail,omitempty"` // wfaults: only the offsets of the last Tail bytes of the file
 	Docs     []int      `json:"docs,omitempty"`
 	Pairs    []Pair     `json:"pairs,omitempty"`
 	Level    string     `json:"level,omitempty"`
@@ -428,7 +429,10 @@ func (e *Env) missing(op *Op) bool {
 	if op.Op == "stats_merge" && e.segs[op.Seg2] == nil {
 		return true
 	}
-	if op.Op == "merge" || op.Op == "merge_fail" || op.Op == "merge_fsweep" {
+	if op.Op == "wfaults" && len(op.In) == 0 && e.segs[op.Seg] == nil {
+		return true
+	}
+	if op.Op == "merge" || op.Op == "merge_fail" || op.Op == "merge_fsweep" || op.Op == "wfaults" {
 		for _, h := range op.In {
 			if e.segs[h] == nil {
 				return true
